@@ -314,6 +314,13 @@ def check_roundtrip(case):
         else:
             rd = dtype
             exp = built.expected(key, dtype)
+        if case.get("first_dtype") and cont != "raw":
+            # the same file is first read with ANOTHER dtype (a lossy one): that answer is not judged, but nothing of it
+            # may remain in the process when the judged reads follow
+            try:
+                _read(built, _accesses(cont)[0][1], case["first_dtype"], key)
+            except Exception:  # noqa
+                pass
         for label, how in _accesses(cont):
             what = "%s%s key=%r dtype=%s via %s(force_as=%r)" % (
                 cont, list(stored.shape), key, rd, how[0], how[1])
@@ -375,6 +382,23 @@ def check_errors(case):
             labels.append("exists=%s" % case["exists"])
             return {"nontrivial": True, "labels": labels}
         built = build(case, td)
+        if kind == "config_suffix":
+            # the set of suffixes handed to soundfile is a documented, user-settable package constant: a name read
+            # successfully while its suffix is listed is an unrecognised name (IOError) once the suffix is removed
+            from pydrobert.speech import config
+
+            suffix = built.path.rsplit(".", 1)[-1]
+            if suffix not in config.SOUNDFILE_SUPPORTED_FILE_TYPES or suffix == "wav":
+                raise Discard()
+            call("read_signal(%s) while .%s is a soundfile type" % (os.path.basename(built.path), suffix), read_signal, built.path)
+            old_types = config.SOUNDFILE_SUPPORTED_FILE_TYPES
+            config.SOUNDFILE_SUPPORTED_FILE_TYPES = set(old_types) - {suffix}
+            try:
+                expect_raises("read_signal of the same name after .%s was removed from SOUNDFILE_SUPPORTED_FILE_TYPES" % suffix,
+                              IOError, read_signal, built.path)
+            finally:
+                config.SOUNDFILE_SUPPORTED_FILE_TYPES = old_types
+            return {"nontrivial": True, "labels": labels + ["suffix=" + suffix]}
         if kind == "stream_no_force_as":
             kw = {}
             if case.get("with_dtype"):
@@ -710,6 +734,7 @@ def _container_case(draw, containers=CONTAINERS, allow_cast=True, allow_key=True
             case["dtype"] = draw(st.sampled_from(WIDE_TARGETS))
         else:
             case["dtype"] = draw(st.sampled_from(CAST_TARGETS))
+    case["first_dtype"] = draw(st.sampled_from([None, None, "float16", "uint16", "int8", "float32"]))
     return case
 
 
@@ -733,6 +758,8 @@ GENERAL_EXT = ["", ".txt", ".mp3", ".bin", ".dat", ".json", ".", ".tar", ".m4a",
 def _error_cases(draw):
     base = draw(_container_case(allow_cast=False, allow_key=False))
     kind = draw(st.sampled_from(["unknown_suffix", "unknown_suffix", "stream_no_force_as", "unknown_force_as"]))
+    if base["container"] in ("flac", "aiff") and draw(st.booleans()):
+        kind = "config_suffix"
     base["kind"] = kind
     if kind == "unknown_suffix":
         ext = draw(st.one_of(st.sampled_from(NEAR_MISS[base["container"]]), st.sampled_from(GENERAL_EXT)))
